@@ -37,6 +37,26 @@ CLAIMED = {
             "Range is issued as a read operation on the store states seeded histories reach (SoftCollection with lazily materialised zero values and fields added after storing) and on Resources / WrapperCollection twins holding the same records as wrapped structs; the page is checked by ranks against an independent select -> filter -> order reference, consecutive pages must partition the matches, a permuted initial order must not matter when id is a rule, the input collection must keep its members and order, no panic, non-nil result.",
             "IDs unique (domain). Sort/filter semantics are sampled; what simulation contributes is the store states and the untouched-input clause. One open known finding (rules on uint64 / *uint64 / *[]byte attributes are skipped; pinned by TestSortResources), recognised only when the page is exactly what skipping those rules gives.",
             "query-on-simulated-store-states vs reference evaluator, rank-based oracle"),
+    "C11": ("E1-doc", "4/C11",
+            "Each seeded document+URL is marshaled twice, then as a deep-equal twin with to-many IDs / field-selection names / relationship-data names / included list permuted, then under adversarial map-iteration orders (sorted, reverse, shuffle, one site flipped) and after re-parsing the URL under another map order: all outputs must be byte-identical; a before/after snapshot of everything read from the resources and the URL must be unchanged (order-exempt parts compared as sets).",
+            "Map order is a scheduler the simulator owns (all 41 map-range sites of the package are rewritten in a scratch copy; stdlib json/url sort their keys). Included resources have distinct IDs. Inputs are sampled.",
+            "seeded map-order scheduling + permutation metamorphism, byte-equality oracle"),
+    "C03": ("E1-doc", "4/C03",
+            "Documents are built through seeded histories of 0..12 Document.Include calls (repeats, primary-data resources, same ID under another type) on every primary-data collection kind incl. the Resources collection Range returns, marshaled under a seeded map order and checked by an independent JSON:API structure validator (top-level members, data xor errors, included only with data, resource/relationship object shape, self links) plus no duplicate type/ID across primary data and included.",
+            "Well-formedness is monitored on sampled documents; the Include-history clause is what simulation decides. IDs non-empty; identifiers as primary data do not count as duplicates.",
+            "Include-history simulation + independent structure validator"),
+    "C01": ("E2-wire", "4/C01-C02",
+            "Fault-free transport configuration: a resource with every field set (28 kinds, boundary values, exotic IDs) is marshaled by the real sender, delivered as the Body of an http.Request through a simulated io.ReadCloser that only fragments (1..k byte reads, zero-length reads, data+EOF), decoded by NewRequest/ReadAll and again by UnmarshalDocument under seeded map orders on both sides and a per-run time.Local; received type, ID and every value must equal what was sent.",
+            "Values are sampled, not enumerated; the simulator contributes the delivery path, map order and ambient zone. To-many compared as sets, nil/empty bytes equal. Runs separately from the faulty configuration (C05).",
+            "simulated transport (fault-free baseline) with sender/receiver running real code, equality oracle"),
+    "C02": ("E2-wire", "4/C01-C02",
+            "Fault-free transport configuration at document level: every primary-data kind with included, meta, resource meta, errors, prefix and field selection is sent through the simulated body to NewRequest (POST/PATCH); kind of primary data, resources in order with selected values, included set, meta and error objects must come back equal.",
+            "Selected fields are those the parsed URL lists for the type; relationship values compared only when data was requested; nil and empty maps equal; documents are sampled.",
+            "simulated transport (fault-free baseline), document-level equality oracle"),
+    "C05": ("E2-wire", "4/C05",
+            "Faulty transport configuration: valid messages produced by the real sender are delivered with swarm-chosen faults (truncation biased to structural bytes, read error after k bytes, bit flips/byte substitution, duplication, loss, reorder, splice of two messages, faulty sender mutating the JSON tree) to NewRequest, UnmarshalDocument and, for the data member, the five payload-level entry points; safety oracle only: no panic, error xor result, read errors propagated, every returned resource conforms to the schema.",
+            "Decides C05 on byte strings reachable from valid messages by transport and sender faults, not on all byte strings in the abstract. One open known finding (bytes attribute: panic instead of error; pinned by TestAttrUnmarshalToType).",
+            "fault injection on a simulated request body, safety oracle"),
 }
 
 NA = {
@@ -48,7 +68,7 @@ NA = {
     "C20": "Check/Wrap/BuildType are pure functions of a reflect.Type; the quantifier is over programs (struct declarations), not over runs of anything.",
 }
 
-PLANNED = ["C01", "C02", "C03", "C05", "C08", "C11", "C12"]
+PLANNED = ["C08", "C12"]
 
 
 def main():
@@ -87,6 +107,10 @@ def main():
              "kind_free_text": "seeded edit histories on one Schema vs reference model; coherent-schema builder in permuted orders; seeded map-order scheduler"},
             {"name": "E6-resource", "path": "sim/engines/e6resource", "serves_properties": ["C17", "C18"],
              "kind_free_text": "SoftResource and Wrapper twins under one Set/Get history vs model; copy/new aliasing histories"},
+            {"name": "E1-doc", "path": "sim/engines/e1doc", "serves_properties": ["C11", "C03"],
+             "kind_free_text": "documents/URLs marshaled under seeded map orders and permutations; Include histories + structure validator"},
+            {"name": "E2-wire", "path": "sim/engines/e2wire", "serves_properties": ["C01", "C02", "C05"],
+             "kind_free_text": "real sender -> simulated request body (fragmentation; 8 fault kinds) -> real receiver; fault-free and faulty configurations run separately"},
             {"name": "E4-store", "path": "sim/engines/e4store", "serves_properties": ["C19", "C09"],
              "kind_free_text": "SoftCollection histories vs ordered-list model; Range queries on reached store states vs reference evaluator"},
         ],
